@@ -16,8 +16,9 @@ def program(a):
     # through a raw pointer) are well-typed there without a block of their own (edition 2021)
     ua = "std::ptr::read(&a as *const u64)" if a["m_unsafe"] else "a"
     if a["when"]: opts.append(f"when: {ua} == 7 && b == 1")
-    if a["assign"]: opts.append(f"assign: {{ ASSIGNS.fetch_add(1, SeqCst); SEEN.store({ua} as usize, SeqCst); A_STAMP.store(CLOCK.fetch_add(1, SeqCst) + 1, SeqCst); }}")
-    if a["returns"]: opts.append(f"returns: {{ EVALS.fetch_add(1, SeqCst); R_STAMP.store(CLOCK.fetch_add(1, SeqCst) + 1, SeqCst); 9000 + {ua} + EVALS.load(SeqCst) as u64 }}")
+    # the assign fragment declares a local that SHADOWS the argument and an RAII local: neither may be visible / alive when `returns` is evaluated
+    if a["assign"]: opts.append(f"assign: {{ ASSIGNS.fetch_add(1, SeqCst); SEEN.store({ua} as usize, SeqCst); A_STAMP.store(CLOCK.fetch_add(1, SeqCst) + 1, SeqCst); let _alive = Alive::new(); let a = a ^ (1u64 << 40); std::hint::black_box(a); }}")
+    if a["returns"]: opts.append(f"returns: {{ EVALS.fetch_add(1, SeqCst); R_STAMP.store(CLOCK.fetch_add(1, SeqCst) + 1, SeqCst); 9000 + {ua} + EVALS.load(SeqCst) as u64 + 1_000_000 * ALIVE.load(SeqCst) as u64 }}")
     if a["times"]: opts.append(f"times: {N}")
     call = "unsafe { f(a, 1) }" if a["m_unsafe"] else "f(a, 1)"
     body = "{ std::hint::black_box((a, b)); }" if a["m_unit"] else "{ std::hint::black_box(b); 100 + a }"
@@ -54,6 +55,10 @@ use std::sync::atomic::{{AtomicUsize, Ordering::SeqCst}};
 static ASSIGNS: AtomicUsize = AtomicUsize::new(0);
 static EVALS: AtomicUsize = AtomicUsize::new(0);
 static SEEN: AtomicUsize = AtomicUsize::new(0);
+static ALIVE: AtomicUsize = AtomicUsize::new(0);
+struct Alive;
+impl Alive {{ fn new() -> Alive {{ ALIVE.fetch_add(1, SeqCst); Alive }} }}
+impl Drop for Alive {{ fn drop(&mut self) {{ ALIVE.fetch_sub(1, SeqCst); }} }}
 static CLOCK: AtomicUsize = AtomicUsize::new(0);
 static A_STAMP: AtomicUsize = AtomicUsize::new(0);
 static R_STAMP: AtomicUsize = AtomicUsize::new(0);
